@@ -278,7 +278,12 @@ int gc_gen(cs_t *cs, gcase_t *c, const runcfg_t *cfg, int prop) {
         else if (k == 12) c->val = 256;
         else if (k == 13) c->val = -1;
         else if (k == 14) c->val = 0x10ffff + cs_range(cs, 0, 2);
-        else c->val = cs_range(cs, 0, 0x7fff);
+        else { /* half of them: one byte repeated in every byte of the element (a fill that can be "optimised" into a byte fill) */
+            long q = cs_range(cs, 0, 0x7fff);
+            c->val = (q & 1) ? q : (long)(0x01010101u * (uint32_t)(1 + (q >> 1) % 255));
+            if (!(q & 1) && r->w == 2) c->val &= 0xffff;
+            if (!(q & 1) && (r->fl & F_VAL255)) c->val &= 0x7f7f7f7f; /* an int parameter: stay positive, the documented constraint is "> 255" */
+        }
         if (r->fam == FAM_QUERY && (r->fl & F_SRC)) c->val = cs_range(cs, 0, 1);
     }
     c->out_null = (r->out_kind != OUT_NONE || r->ret_kind == RK_PTR_ERRP) ? cs_range(cs, 0, 39) == 0 : 0;
